@@ -20,6 +20,7 @@ RULE = (
     'statement or declaration that is complete before the cut must be present, unchanged and in order. Non-trivial: at '
     'least one valid item follows the injection point / the cut falls inside a construct with a complete one before it; '
     'distinct by damaged text.'
+    " Garbage also comes as malformed KNOWN at-rules ('@page $ {}', '@media ;', '@font-face $ {}', '@variables $ {}', '@namespace ;', an @media rule with a refused query - anywhere, also between the @import / @namespace rules), as reserved at-keywords carrying a block, as constructs whose first token is an escaped bracket, and as unknown at-rules that end with their block and are followed by the next declaration without ';' or white space; literal sheets pin known at-rules between declarations."
 )
 ASSUMPTIONS = [
     'garbage is balanced in () [] {} and quotes by construction and never forms a valid construct of its level',
